@@ -10,4 +10,4 @@ import GnarkVerif.Props.C10_top_koalabear
 import GnarkVerif.Props.C10_top_babybear
 /- C10 (tie T): the theorems about the top-level transforms `(*Domain).FFT` / `(*Domain).FFTInverse` that tools/goslp regenerates
    from the Go source on every run (Gen/FFT/*Top.lean). This module imports the per-package files (written by bin/mkc10top.py).
-   10 packages, 2400 theorems (listed with their axioms in Audit/C10_top.lean). -/
+   10 packages, 2490 theorems (listed with their axioms in Audit/C10_top.lean). -/
